@@ -25,6 +25,17 @@ prop("C07", True, "E2 views",
      "Trusted: independent 10-line encoder, std BTreeMap, default MockStorage. Segments <= 65535 bytes, non-empty values.",
      "DESIGN.md section 5 C07")
 
+prop("C09", True, "E3 bank",
+     "runtime monitor: BTreeMap ledger reference model + conservation invariant over a raw scan of the bank namespace after every operation",
+     "Held on every execution observed: generated ledger histories (mint, send, burn, contract-initiated transfers with attached funds; duplicate denominations, zeros, boundary amounts, self-transfers, non-address recipients); after every operation accept/reject, every raw balance, the per-denomination sum of all raw balances and the Balance / AllBalances / Supply queries equal the ledger model, and a rejected operation leaves raw storage byte-identical.",
+     "Trusted: 60-line ledger model, serde_json decoding of the raw ledger. Amounts <= 10^12, histories <= 200 ops (no 128-bit overflow).",
+     "DESIGN.md section 5 C09")
+prop("C18", True, "E6 codec",
+     "runtime monitor: round-trip / must-accept (reference bech32 encoder) / must-reject oracle over generated prefixes, byte strings, names and every single-character substitution and case flip",
+     "Held on every input observed: for generated lowercase prefixes (1-83 chars) x both checksum variants x every canonical length 1..64: humanize/canonicalize round trip, equality with the reference encoding, validate returns the string unchanged, other variant and foreign prefixes rejected; for swept addresses every position x every other charset character and every single-letter case flip rejected; addr_make / Into* deterministic, valid under their own codec and distinct across names, prefixes, variants; no panic.",
+     "Trusted: the bech32 crate as reference encoder. Lower-case prefixes only; insertions/deletions/'1'-substitutions/all-uppercase forms are observed, not judged.",
+     "DESIGN.md section 5 C18")
+
 for pid in ["C01","C02","C03","C04","C05","C08","C09","C10","C11","C12","C13","C14","C15","C16","C17","C18","C19","C20"]:
     if pid not in P:
         prop(pid, False, "", "", "", "", "", reason=PENDING)
